@@ -21,8 +21,17 @@ EXTENDS Integers, Sequences, FiniteSets, TLC, Json, IOUtils
 TraceLog == ndJsonDeserialize(IOEnv.TRACE)
 CONSTANTS Items, KVKeys
 
-VARIABLES l, cnt, okrf, okkeys, written, closed, open, lateStart
-tvars == <<l, cnt, okrf, okkeys, written, closed, open, lateStart>>
+VARIABLES l, cnt, okrf, okkeys, written, closed, open, lateStart,
+          vlive,    \* ids of the shared index that may be live now: an add was started and no delete has completed since
+          sopen     \* [search call id -> ids that may have been live at some instant of the search so far]
+tvars == <<l, cnt, okrf, okkeys, written, closed, open, lateStart, vlive, sopen>>
+
+\* C06 under concurrency: a search returns only vectors that were live at some instant between its call and its
+\* return -- never one whose delete had completed before the search started (ids are added/deleted by their owner
+\* only, so the liveness window of an id is read off the call/ret events), no duplicates, at most k results
+Adders == {"VAdd", "VAddBatch", "VImport"}
+SeqToSet(sq) == {sq[i] : i \in 1..Len(sq)}
+NoDup(sq) == \A i, j \in 1..Len(sq) : i # j => sq[i] # sq[j] \/ sq[i] = "EVOLVED"
 
 Mutating == {"KVSet", "KVDelete", "VAdd", "VAddBatch", "VDelete", "VSetMetadata", "VReinforce", "VLink", "VUnlink",
              "VCreate", "VDeleteIndex", "SaveSnapshot", "RewriteAOF", "VImport", "VImportCommit", "VEvolve"}
@@ -32,17 +41,22 @@ Consume == l' = l + 1
 
 TraceInit == /\ l = 1 /\ cnt = [i \in Items |-> 0] /\ okrf = [i \in Items |-> 0] /\ okkeys = [i \in Items |-> {}]
              /\ written = [k \in KVKeys |-> {"absent"}] /\ closed = FALSE /\ open = {} /\ lateStart = {}
+             /\ vlive = Items \cup {"EVOLVED"} /\ sopen = <<>>
 
 T_Call == /\ IsEv("call") /\ Consume
           /\ open' = open \cup {Ev.id}
           /\ lateStart' = IF closed THEN lateStart \cup {Ev.id} ELSE lateStart
           /\ written' = IF Ev.op = "KVSet" THEN [written EXCEPT ![Ev.k] = @ \cup {Ev.v}] ELSE written
+          /\ vlive' = IF Ev.op \in Adders THEN vlive \cup SeqToSet(Ev.vids) ELSE vlive
+          /\ sopen' = IF Ev.op = "VSearch" THEN [x \in DOMAIN sopen \cup {Ev.id} |-> IF x = Ev.id THEN vlive ELSE sopen[x]]
+                      ELSE IF Ev.op \in Adders THEN [x \in DOMAIN sopen |-> sopen[x] \cup SeqToSet(Ev.vids)]
+                      ELSE sopen
           /\ UNCHANGED <<cnt, okrf, okkeys, closed>>
 
 T_RfLin == /\ IsEv("rf.lin") /\ Consume
            /\ Ev.n = cnt[Ev.item] + 1                    \* exactly the next count: no lost update, no repeat
            /\ cnt' = [cnt EXCEPT ![Ev.item] = Ev.n]
-           /\ UNCHANGED <<okrf, okkeys, written, closed, open, lateStart>>
+           /\ UNCHANGED <<okrf, okkeys, written, closed, open, lateStart, vlive, sopen>>
 
 T_Ret == /\ IsEv("ret") /\ Consume
          /\ Ev.id \in open
@@ -51,16 +65,21 @@ T_Ret == /\ IsEv("ret") /\ Consume
          /\ (Ev.op = "KVGet" => Ev.v \in written[Ev.k])  \* a read never sees a value that was not written
          /\ okrf' = IF Ev.op = "VReinforce" /\ Ev.ok THEN [okrf EXCEPT ![Ev.item] = @ + 1] ELSE okrf
          /\ okkeys' = IF Ev.op = "VSetMetadata" /\ Ev.ok THEN [okkeys EXCEPT ![Ev.item] = @ \cup {Ev.k}] ELSE okkeys
+         /\ (Ev.op = "VSearch" /\ Ev.ok) =>
+               /\ SeqToSet(Ev.ids) \subseteq sopen[Ev.id]      \* only vectors live at some instant of the search
+               /\ NoDup(Ev.ids) /\ Len(Ev.ids) <= 3
+         /\ vlive' = IF Ev.op = "VDelete" /\ Ev.ok THEN vlive \ SeqToSet(Ev.vids) ELSE vlive
+         /\ sopen' = IF Ev.op = "VSearch" THEN [x \in DOMAIN sopen \ {Ev.id} |-> sopen[x]] ELSE sopen
          /\ UNCHANGED <<cnt, written, closed, lateStart>>
 
 T_Closed == /\ IsEv("close.done") /\ Consume /\ closed' = TRUE
-            /\ UNCHANGED <<cnt, okrf, okkeys, written, open, lateStart>>
+            /\ UNCHANGED <<cnt, okrf, okkeys, written, open, lateStart, vlive, sopen>>
 
 T_Final == /\ IsEv("final") /\ Consume
            /\ open = {}                                   \* every call returned
            /\ Ev.count = okrf[Ev.item]                    \* every acknowledged reinforcement is counted, none twice
            /\ okkeys[Ev.item] \subseteq {Ev.keys[i] : i \in 1..Len(Ev.keys)}   \* every merged key kept
-           /\ UNCHANGED <<cnt, okrf, okkeys, written, closed, open, lateStart>>
+           /\ UNCHANGED <<cnt, okrf, okkeys, written, closed, open, lateStart, vlive, sopen>>
 
 TraceNext == T_Call \/ T_RfLin \/ T_Ret \/ T_Closed \/ T_Final
 TraceSpec == TraceInit /\ [][TraceNext]_tvars
